@@ -283,7 +283,7 @@ def gen_case(rng, tier):
 
 def run(ctx):
     problems, consts = flow.proof_phase(ctx, "C12", required=REQUIRED, drivers=["drv_C12"])
-    ok, bdir, lg = repo.build("tools")
+    ok, bdir, lg = repo.build("tools", targets=["filter", "query"])
     if not ok:
         problems.append(lg)
         flow.report_obligation_failures(ctx, problems, False)
